@@ -71,6 +71,13 @@ var c06Needles = map[string]string{
 	"bump":                    "c14bump",
 	"elide-then-delete":       "c14",
 	"unparseable-result":      "c14chk",
+	"plain-names":             "c14keep",
+}
+
+// c06Exact: for these changes the only possible instance is known, so a file
+// that mentions the callee is still decided if it does not hold that text.
+var c06Exact = map[string]*regexp.Regexp{
+	"plain-names": regexp.MustCompile(`c14keep\(\s*x\s*,\s*y\s*,?\s*\)`),
 }
 
 var c06PkgRe = regexp.MustCompile(`(?m)^package ([A-Za-z_][A-Za-z0-9_]*)`)
@@ -246,6 +253,9 @@ func c06NoApply(ch *c06Change, src string, tree *ref.Tree) (ok bool, why string)
 	case "special":
 		if ch.Needle != "" && !strings.Contains(src, ch.Needle) {
 			return true, "needle-absent"
+		}
+		if re := c06Exact[ch.Label]; re != nil && !re.MatchString(src) {
+			return true, "only-near-misses"
 		}
 		return false, "needle-present"
 	case "guarded":
